@@ -170,7 +170,7 @@ def run(rep, tier, rng):
     # SEVERAL import declarations one after another, a later one binding a name AGAIN - to another export whose value looks the same
     # (two counters made by one procedure, two vectors with equal contents) but is another object: after each declaration the name
     # means what THAT declaration's import set yields; told apart through state (calling the counter, writing the vector)
-    KLIB = ("(define-library (k) (import (scheme base)) (export c1 c2 v1 v2) (begin (define (mk) (let ((n 0)) (lambda () (set! n (+ n 1)) n))) "
+    KLIB = ("(define-library (k) (import (scheme base)) (export c1 c2 v1 v2 n1 n2) (begin (define n1 1) (define n2 2) (define (mk) (let ((n 0)) (lambda () (set! n (+ n 1)) n))) "
             "(define c1 (mk)) (define c2 (mk)) (define v1 (make-vector 2 0)) (define v2 (make-vector 2 0))))")
     scases, swant = [], {}
     for j in range(120 if tier == "quick" else 3000):
@@ -178,11 +178,11 @@ def run(rep, tier, rng):
         fields = ["nostd", "Rk=" + KLIB, ">(import (scheme base))"]
         want = ["N"]
         for _d in range(rng.randrange(2, 4)):
-            srcs = rng.sample(["c1", "c2", "v1", "v2"], rng.randrange(1, 4))
+            srcs = rng.sample(["c1", "c2", "v1", "v2", "n1", "n2"], rng.randrange(1, 4))
             pairs = []
             used = set()
             for sname in srcs:
-                pool = (["next", "c1", "c2", "cc"] if sname[0] == "c" else ["v", "v1", "v2", "vv"])
+                pool = (["next", "c1", "c2", "cc"] if sname[0] == "c" else ["v", "v1", "v2", "vv"] if sname[0] == "v" else ["num", "n1", "n2", "nn"])
                 t = rng.choice([x for x in pool if x not in used] or [sname])
                 used.add(t); pairs.append((sname, t))
             ren = [(a, b) for a, b in pairs if a != b]
@@ -204,7 +204,9 @@ def run(rep, tier, rng):
                 break
             nm = rng.choice(sorted(env))
             obj = env[nm]
-            if obj[0] == "c":
+            if obj[0] == "n":
+                fields.append(">%s" % nm); want.append("V i:%s" % obj[1])
+            elif obj[0] == "c":
                 counts[obj] += 1
                 fields.append(">(%s)" % nm); want.append("V i:%d" % counts[obj])
             elif rng.random() < 0.5:
